@@ -103,8 +103,22 @@ def gen_cases(tier, seed):
             dstate = "collide"
             collide_kind = r.choice(["file", "file", "dangling-link", "fifo", "link-to-file", "link-to-dir", "link-to-dir"])
         elif cls == "same-as-dest":
-            which = r.choice(["file", "dir", "mapped"])
-            if which == "file":
+            which = r.choice(["file", "dir", "mapped", "inside", "inside"])
+            if which == "inside":
+                # a directory copied to a place inside itself (an existing sub-directory, a new name in it, a path with parts still
+                # missing, another spelling, a link that leads there): the copy would be its own input
+                spec += [{"p": "adir", "k": "d"}, {"p": "adir/inner", "k": "d"}, {"p": "adir/inner/x", "k": "f", "size": 4, "seed": 2, "segs": None},
+                         {"p": "adir/y", "k": "f", "size": 5, "seed": 3, "segs": None}, {"p": "lin", "k": "l", "target": "adir/inner"}, {"p": "ldir", "k": "l", "target": "adir"}]
+                src_sp = r.choice(["adir", "adir", "./adir", "adir/", "adir/.", "@ROOT@/adir"])
+                dest = r.choice(["adir/inner", "adir/inner/", "adir/new", "adir/new1/new2", "./adir/../adir/inner", "@ROOT@/adir/inner", "lin", "lin/", "ldir/inner", "adir/inner/deeper/still"])
+                if r.random() < 0.5:
+                    srcs = [src_sp]
+                else:
+                    srcs.insert(pos, src_sp)
+                    dest = r.choice(["adir/inner", "lin", "@ROOT@/adir/inner", "adir/inner/"])      # (several sources need an existing directory)
+                if r.random() < 0.25:
+                    opts.append("-T") if len(srcs) == 1 else None
+            elif which == "file":
                 srcs, dest = ["v0"], "v0"
             elif which == "dir":
                 # the directory itself, also through another spelling or a symbolic link
@@ -200,9 +214,11 @@ def gen_cases(tier, seed):
         noise = r.choice([[], [], [], ["--fsync"], ["--backup", "numbered"], ["--no-perms"], ["-L"], ["--gitignore"], ["--no-progress"], ["--reflink", "never"]])
         if cls in ("bad-backup", "bad-reflink") and noise and noise[0] in ("--backup", "--reflink"):
             noise = []
+        if cls == "same-as-dest" and locals().get("which") == "inside" and noise == ["--gitignore"]:
+            noise = []
         wopt = [] if cls == "bad-workers" else ["-w", str(r.choice([0, 1, 4]))]
         args = drv + wopt + opts + noise + srcs + ([dest] if dest is not None else [])
-        yield {"spec": spec, "pre": pre, "args": args, "driver": driver, "cls": cls, "pos": pos if cls in ("missing-source", "dir-without-r", "dir-onto-file-mapped", "bad-glob", "dangling-source") else -1,
+        yield {"spec": spec, "pre": pre, "args": args, "driver": driver, "cls": cls + (":directory-into-itself" if cls == "same-as-dest" and which == "inside" else ""), "pos": pos if cls in ("missing-source", "dir-without-r", "dir-onto-file-mapped", "bad-glob", "dangling-source") else -1,
                "nsrc": len(srcs), "dstate": dstate, "fs": "ext4"}
 
 
